@@ -67,7 +67,8 @@ pub fn run_fuzz(ctx: &Ctx, report: &mut Report, spec: FuzzSpec) {
         }
         cmd.env("ZV_FUZZ_STATS", work.join(format!("stats{}.json", j)));
         cmd.env("RUST_BACKTRACE", "0");
-        cmd.env("ZV_SCRATCH", scratch_base());
+        // the target's own scratch lives inside the work directory (removed below)
+        cmd.env("ZV_SCRATCH", &work);
         cmd.stdout(std::process::Stdio::null());
         cmd.stderr(std::fs::File::create(work.join(format!("log{}.txt", j))).unwrap());
         children.push((j, cmd.spawn().expect("spawn fuzz target")));
